@@ -299,6 +299,7 @@ func CheckC11(r *Run) int {
 	}
 	const idc = "aZ_09"
 	templates := []tmpl{
+		{"x[0]-?", "0-9 a"}, {"f()-?", "0-9 a"}, {"\"s\"-?", "0-9 a"}, {"true-?", "0-9 a"}, {"x -? y", "0-9 "}, {"(-?)", "0-9a"}, {"nil-?,-?", "0-9 "},
 		{"\"\\x4?\" \"\\?01\"", "1g0\"9"},
 		{"\"\\u00e?\"?", "9g\" "},
 		{"/*?*/?/*?*/", "a*/ \n"},
